@@ -11,7 +11,7 @@ import (
 	"sort"
 	"strings"
 	"sync"
-	"sync/atomic"
+	"syscall"
 	"time"
 
 	"verifharness/internal/gen"
@@ -66,7 +66,7 @@ func msgSummary(m *ast.DataMessage) string {
 }
 
 // doOp performs one operation and renders its result as a string.
-func doOp(o *sharedObj, op string) (res string) {
+func doOp(o *sharedObj, op string, tag string) (res string) {
 	defer func() {
 		if r := recover(); r != nil {
 			res = "panic: " + fmt.Sprint(r)
@@ -97,7 +97,8 @@ func doOp(o *sharedObj, op string) (res string) {
 			return real.Str(n) + "|" + strings.Join(n.Variables(), ",")
 		case "WrapInLists":
 			// the shared item becomes the first element of new lists built by the caller (user-built sharing of sub-items)
-			tag := fmt.Sprintf("w%d", wrapSeq())
+			// tag: a name prefix unique to this call, made from goroutine-local counters (no shared counter: any
+			// atomic here would order the goroutines and hide races)
 			p1 := ast.NewListNode(o.item, tag+"a", ast.NewUintNode(1, tag+"b"))
 			p2 := ast.NewListNode(ast.NewListNode(o.item), tag+"c")
 			out := strings.Join(p1.Variables(), ",") + "|" + strings.Join(p2.Variables(), ",") + "|" + real.Str(p1)
@@ -188,6 +189,21 @@ func buildOne(r *rng.R, slot int) *sharedObj {
 			fill[k] = rawOf(full[k])
 		}
 	}
+	if slot == 11 {
+		// a big list that holds another big list (an encoder that farms out sub-lists must cope with many callers)
+		leaf := ast.NewUintNode(1, uint8(slot))
+		inner := make([]interface{}, 1100+r.Intn(50))
+		for i := range inner {
+			inner[i] = leaf
+		}
+		outer := make([]interface{}, 1030+r.Intn(20))
+		for i := range outer {
+			outer[i] = ast.NewBinaryNode(i % 256)
+		}
+		outer[r.Intn(len(outer))] = ast.NewListNode(inner...)
+		outer[r.Intn(len(outer))] = ast.NewListNode(inner...)
+		return &sharedObj{kind: "item", item: ast.NewListNode(outer...), fill: map[string]interface{}{}, counts: map[string]interface{}{}}
+	}
 	switch slot % 7 {
 	case 5:
 		// a variable-free tree: its encoder and printer do real work on shared nodes
@@ -265,7 +281,7 @@ func buildPool(r *rng.R, n int) []*sharedObj {
 // freshNameWork builds, prints, fills and parses objects whose variable names have never been seen by the process
 // before, and checks them against the model: package-level state keyed by names is then written under concurrency.
 func freshNameWork(gr *rng.R, tag string) string {
-	g := gen.New(gr, gen.Profile{MaxDepth: 2, Vars: true, Ellipsis: gr.Bool(), PlainNames: true, Budget: 60, MaxKids: 3, MaxElems: 3})
+	g := gen.New(gr, gen.Profile{MaxDepth: 3, Vars: true, Ellipsis: gr.Chance(2, 3), PlainNames: true, Budget: 80, MaxKids: 3, MaxElems: 3})
 	it := g.Tree()
 	renameVars(it, tag)
 	var node ast.ItemNode
@@ -278,6 +294,30 @@ func freshNameWork(gr *rng.R, tag string) string {
 	if !real.EqStrs(node.Variables(), it.Vars()) {
 		return fmt.Sprintf("fresh item variables %q want %q", node.Variables(), it.Vars())
 	}
+	// expand its ellipses (every goroutine does this now and then, with its own fresh template) and compare with the model
+	if it.Kind == ref.L {
+		counts := map[string]int{}
+		raw := map[string]interface{}{}
+		for _, v := range it.Vars() {
+			if ref.IsEllipsisName(v) {
+				counts[v] = 1 + gr.Intn(2)
+				raw[v] = counts[v]
+			}
+		}
+		if len(counts) > 0 {
+			var exp ast.ItemNode
+			if o := real.Try(func() { exp = node.FillVariables(raw) }); o.Panicked {
+				return "fresh expansion refused: " + o.Text
+			}
+			want := ref.Expand(it, counts)
+			if d := ref.MatchPrinted(real.Str(exp), ref.PrintSegs(want)); d != "" {
+				return "fresh expansion printed wrong: " + d
+			}
+			if !real.EqStrs(ref.NormEllipsis(exp.Variables()), ref.NormEllipsis(want.Vars())) {
+				return fmt.Sprintf("fresh expansion variables %q want %q", exp.Variables(), want.Vars())
+			}
+		}
+	}
 	m := g.Msg(it, false)
 	m.Session = -1
 	msgs, errs, _ := sml.Parse(ref.PrintMsg(m))
@@ -286,6 +326,20 @@ func freshNameWork(gr *rng.R, tag string) string {
 	}
 	if !real.EqStrs(ref.NormEllipsis(msgs[0].Variables()), ref.NormEllipsis(it.Vars())) {
 		return fmt.Sprintf("fresh text variables %q want %q", msgs[0].Variables(), it.Vars())
+	}
+	// a receive loop of this goroutine's own: decode a frame from a private buffer, reuse the buffer for the next
+	// frame, then look at the first message again (it must not live in the caller's buffer)
+	{
+		f1 := ast.NewHSMSMessageSelectReq(uint16(gr.Intn(65536)), gr.Bytes(4)).ToBytes()
+		f2 := ast.NewHSMSMessageLinktestReq(gr.Bytes(4)).ToBytes()
+		buf := make([]byte, 14, 64)
+		copy(buf, f1)
+		m1, ok1 := hsms.Parse(buf)
+		copy(buf, f2)
+		m2, ok2 := hsms.Parse(buf)
+		if !ok1 || !ok2 || m1.Type() != "select.req" || string(m1.ToBytes()) != string(f1) || m2.Type() != "linktest.req" {
+			return fmt.Sprintf("a control message decoded from a reused receive buffer changed: %s %x (sent select.req %x)", m1.Type(), m1.ToBytes(), f1)
+		}
 	}
 	sub := map[string]interface{}{}
 	for k, v := range fullAssignment(g, it) {
@@ -328,12 +382,6 @@ func renameVars(it *ref.Item, tag string) {
 	}
 }
 
-var wrapCounter uint64
-
-// wrapSeq hands out process-unique numbers for fresh variable names. It is an atomic (a synchronisation point
-// between goroutines), so it is used by one rare operation only.
-func wrapSeq() uint64 { return atomic.AddUint64(&wrapCounter, 1) }
-
 var canaryCounter int
 
 // raceCanary performs a deliberate unsynchronised write/write pair so that a
@@ -354,7 +402,7 @@ func raceCanary() {
 }
 
 func runC17(c *ctx) {
-	c.Rule = "race-detector build of a multi-goroutine driver: a pool of 200 shared objects (templates with variables and ellipses, messages, control messages, encoded byte strings, SML texts, shared fill maps) whose sequential reference results are computed afterwards on independently constructed twins (nothing is asked of a shared object before the concurrent phase, so lazily initialised state is first touched under concurrency); 32 (thorough 64) goroutines hammer a few hot objects per round with String, ToBytes, Variables, Size, Header, SystemBytes, FillVariables (shared read-only map and private maps), ellipsis expansion, SetWaitBit, SetSessionIDAndSystemBytes, Type, response constructors, hsms.Parse of a shared buffer and sml.Parse, with Gosched jitter, and every 64th operation builds, prints, parses and fills an object whose variable names the process has never seen (checked against the model); 4 (thorough 15) rounds with different seeds. Oracle: no WARNING: DATA RACE block in the race log whose stacks include a frame of the library, and every call returns what the same call returned in the sequential pre-pass; a deliberately racy canary must be reported or the run is inconclusive. non-trivial = a call that started while another goroutine's call on the same object was in flight; distinct by (operation, object, round)"
+	c.Rule = "race-detector build of a multi-goroutine driver: a pool of 200 shared objects (templates with variables and ellipses, messages, control messages, encoded byte strings, SML texts, shared fill maps) whose sequential reference results are computed afterwards on independently constructed twins (nothing is asked of a shared object before the concurrent phase, so lazily initialised state is first touched under concurrency); 32 (thorough 64) goroutines hammer a few hot objects per round with String, ToBytes, Variables, Size, Header, SystemBytes, FillVariables (shared read-only map and private maps), ellipsis expansion, SetWaitBit, SetSessionIDAndSystemBytes, Type, response constructors, hsms.Parse of a shared buffer and sml.Parse, with Gosched jitter, and every 32nd operation builds, prints, expands, parses and fills an object whose variable names the process has never seen (checked against the model); 4 (thorough 15) rounds with different seeds. Oracle: no WARNING: DATA RACE block in the race log whose stacks include a frame of the library, and every call returns what the same call returned in the sequential pre-pass; a deliberately racy canary must be reported or the run is inconclusive. non-trivial = a call that started while another goroutine's call on the same object was in flight; distinct by (operation, object, round)"
 	c.Assume = []string{"the race detector judges the executions that happened, not all interleavings", "GORACE log_path is set by bin/check"}
 
 	logPrefix := ""
@@ -382,6 +430,7 @@ func runC17(c *ctx) {
 		for _, i := range r.Perm(len(pool))[:12] {
 			hot = append(hot, pool[i])
 		}
+		big := pool[11] // the big nested list: every goroutine encodes it once at the very start of the round, all at once
 		// The hot loop shares nothing between goroutines except the objects under test: no mutex, no atomic, no
 		// channel. Any synchronisation of the monitor itself would order the goroutines' accesses (happens-before)
 		// and hide exactly the unsynchronised access pairs the race detector is there to find. Results, call
@@ -412,6 +461,12 @@ func runC17(c *ctx) {
 			locals[gI] = lc
 			go func() {
 				defer wg.Done()
+				{
+					t0 := int64(time.Since(t00))
+					got := doOp(big, "ToBytes", "")
+					lc.calls = append(lc.calls, call{int32(objIndex[big]), t0, int64(time.Since(t00))})
+					lc.first[[2]int{objIndex[big], 1}] = got
+				}
 				for k := 0; k < opsPer; k++ {
 					var o *sharedObj
 					if gr.Chance(4, 5) {
@@ -426,7 +481,7 @@ func runC17(c *ctx) {
 						runtime.Gosched()
 					}
 					t0 := int64(time.Since(t00))
-					got := doOp(o, op)
+					got := doOp(o, op, fmt.Sprintf("w%dg%dk%d", round, gID, k))
 					t1 := int64(time.Since(t00))
 					lc.calls = append(lc.calls, call{int32(objIndex[o]), t0, t1})
 					key := [2]int{objIndex[o], oi}
@@ -435,7 +490,7 @@ func runC17(c *ctx) {
 					} else if got != first && len(lc.varies) < 3 {
 						lc.varies = append(lc.varies, fmt.Sprintf("%s.%s returned %q and %q", o.kind, op, clipS(first), clipS(got)))
 					}
-					if k%64 == 17 {
+					if k%32 == 17 {
 						lc.fresh++
 						if d := freshNameWork(gr, fmt.Sprintf("_r%dg%dk%d", round, gID, k)); d != "" && len(lc.freshBad) < 3 {
 							lc.freshBad = append(lc.freshBad, d)
@@ -484,7 +539,7 @@ func runC17(c *ctx) {
 		// sequential reference pass, afterwards and on the twins only
 		for _, o := range pool {
 			for op, got := range o.got {
-				if want := doOp(o.twin, op); got != want {
+				if want := doOp(o.twin, op, "wtwin"); got != want {
 					if func() bool { mismatches++; return mismatches <= 6 }() {
 						c.Violation("C17/result-differs-from-sequential/"+o.kind+"."+op, fmt.Sprintf("%s.%s under concurrency returned %q, an equal object asked alone returns %q", o.kind, op, clipS(got), clipS(want)), c17Case{Seed: seed, Round: round, Note: op})
 					}
@@ -560,7 +615,47 @@ func c17Parent(c *ctx) int {
 	cmd.Stdout = os.Stdout
 	var errBuf bytes.Buffer
 	cmd.Stderr = &errBuf
-	err := cmd.Run()
+	// a generous wall-clock limit (the driver normally needs well under a minute in the quick tier): when it expires
+	// the driver gets SIGQUIT so that the goroutine dump shows where everything is blocked
+	limit := time.Duration(c.pick(12, 90)) * time.Minute
+	if err := cmd.Start(); err != nil {
+		fmt.Println("INCONCLUSIVE property=C17 reason=cannot start the driver:", err)
+		return 2
+	}
+	done := make(chan error, 1)
+	go func() { done <- cmd.Wait() }()
+	var err error
+	hung := false
+	select {
+	case err = <-done:
+	case <-time.After(limit):
+		hung = true
+		cmd.Process.Signal(syscall.SIGQUIT)
+		select {
+		case err = <-done:
+		case <-time.After(30 * time.Second):
+			cmd.Process.Kill()
+			err = <-done
+		}
+	}
+	if hung {
+		dump := errBuf.String()
+		blocked := strings.Count(dump, "github.com/wolimst/lib-secs2-hsms-go/")
+		head := dump
+		if len(head) > 4000 {
+			head = head[:4000]
+		}
+		if blocked > 0 && (strings.Contains(dump, "[chan send") || strings.Contains(dump, "[chan receive") || strings.Contains(dump, "[semacquire") || strings.Contains(dump, "[sync.") || strings.Contains(dump, "[select")) {
+			c.Rule = "the concurrent driver made no progress: see the goroutine dump"
+			c.NoteBulk(2, 2)
+			c.Sample(map[string]interface{}{"driver": "hung", "limit_minutes": limit.Minutes(), "goroutine_dump_head": firstLines(head, 40)})
+			c.Violation("C17/driver-hung-inside-the-library", fmt.Sprintf("after %v the concurrent driver had not finished; the goroutine dump shows %d library frames in blocked goroutines: %s", limit, blocked, firstLines(head, 12)), c17Case{Note: head})
+			return c.Finish()
+		}
+		os.Stderr.WriteString(head)
+		fmt.Printf("INCONCLUSIVE property=C17 reason=the driver did not finish within %v (no blocked library frame in the dump)\n", limit)
+		return 2
+	}
 	code := 0
 	if ee, ok := err.(*exec.ExitError); ok {
 		code = ee.ExitCode()
